@@ -109,6 +109,25 @@ def apply_rewrites(item, body, log):
 
 
 def insert_loops(item, body):
+    # end-of-body insertions first (positions computed on the text without annotations), from the back
+    le = getattr(item, 'loopends', None) or {}
+    al = getattr(item, 'afterloops', None) or {}
+    if le or al:
+        mb = mask(body)
+        hdrs = loop_headers(mb)
+        todo = []
+        for k, blk in le.items():
+            if k > len(hdrs):
+                raise LostAnchor('item %s: loopend %d but body has %d loops' % (item.id, k, len(hdrs)))
+            close = match_brace(mb, hdrs[k - 1][1])
+            todo.append((close, blk))
+        for k, blk in al.items():
+            if k > len(hdrs):
+                raise LostAnchor('item %s: afterloop %d but body has %d loops' % (item.id, k, len(hdrs)))
+            close = match_brace(mb, hdrs[k - 1][1])
+            todo.append((close + 1, blk))
+        for (pos, blk) in sorted(todo, key=lambda t: -t[0]):
+            body = body[:pos] + '\n' + '\n'.join(blk) + '\n' + body[pos:]
     if not item.loops:
         return body
     mb = mask(body)
@@ -259,6 +278,30 @@ class Unit:
                     where, _, r = rest.partition(' ')
                     if word == 'ins?':
                         where += '?'
+                    if where in ('loopend', 'afterloop') and False:
+                        pass
+                    if where == 'afterloop':
+                        blk = []
+                        k = int(r.strip())
+                        i += 1
+                        while not lines[i].strip().startswith('//@ endins'):
+                            blk.append(lines[i])
+                            i += 1
+                        item.afterloops = getattr(item, 'afterloops', {})
+                        item.afterloops[k] = blk
+                        i += 1
+                        continue
+                    if where == 'loopend':
+                        blk = []
+                        k = int(r.strip())
+                        i += 1
+                        while not lines[i].strip().startswith('//@ endins'):
+                            blk.append(lines[i])
+                            i += 1
+                        item.loopends = getattr(item, 'loopends', {})
+                        item.loopends[k] = blk
+                        i += 1
+                        continue
                     if where == 'start':
                         r = '⟦{⟧'
                     m = re.match(r'^⟦(.*)⟧\s*$', r.strip(), re.S)
